@@ -121,6 +121,9 @@ struct Run<'a> {
     boundaries: Vec<String>,
     restarts: Vec<Value>,
     died: bool,
+    /// the stream outgrew the scenario's bound (a processor feeding itself): stop acting, cut the trace
+    overflow: bool,
+    max_frames: usize,
     nact: usize,
     log: Vec<Value>,
 }
@@ -449,6 +452,10 @@ impl<'a> Run<'a> {
             if self.died {
                 return (false, vec!["worker died".into()], t0.elapsed().as_millis());
             }
+            if self.frames.len() > self.max_frames {
+                self.overflow = true;
+                return (true, vec!["stream outgrew the scenario bound".into()], t0.elapsed().as_millis());
+            }
             let p = self.pending();
             if p.is_empty() && last_growth.elapsed() >= settle {
                 return (false, vec![], t0.elapsed().as_millis());
@@ -506,6 +513,14 @@ impl<'a> Run<'a> {
                 }
             }
             "sleep" => std::thread::sleep(Duration::from_millis(a["ms"].as_u64().unwrap_or(10))),
+            "gates" => {
+                // only effective when the hooks of docs/proc-hooks.patch are compiled in
+                let _ = self.call(json!({"op": "gates", "prefixes": a["prefixes"]}));
+            }
+            "step" => {
+                let r = self.call(json!({"op": "step", "actor": a["actor"], "wait_ms": a["wait_ms"].as_u64().unwrap_or(300)}));
+                self.log.push(json!({"step": a["actor"], "resp": r}));
+            }
             "settle" => {
                 // let what is in flight finish, but do not insist (used before probes in mode B)
                 let cap = Duration::from_millis(a["cap_ms"].as_u64().unwrap_or(1500));
@@ -534,6 +549,8 @@ impl<'a> Run<'a> {
         if (mode_a || a["wait"].as_bool().unwrap_or(false))
             && a["a"].as_str() != Some("sleep")
             && a["a"].as_str() != Some("settle")
+            && a["a"].as_str() != Some("gates")
+            && a["a"].as_str() != Some("step")
             && !a["nowait"].as_bool().unwrap_or(false)
         {
             let _ = self.wait_quiet(tm.step_settle, tm.long, tm.poll);
@@ -575,7 +592,7 @@ fn norm_content(bytes: Option<&[u8]>, ranks: &HashMap<String, i64>) -> Value {
             let parts: Vec<String> = s.split('|').map(|x| x.to_string()).collect();
             fill_parts(out, &parts);
         } else {
-            out["k"] = json!(s.chars().take(48).collect::<String>());
+            out["k"] = json!(s.trim().chars().take(48).collect::<String>());
         }
     };
     match serde_json::from_str::<Value>(s) {
@@ -638,6 +655,8 @@ pub fn run_scenario(root: &Path, sc: &Value) -> Vec<Value> {
         boundaries: vec![],
         restarts: vec![],
         died: false,
+        overflow: false,
+        max_frames: sc["max_frames"].as_u64().unwrap_or(400) as usize,
         nact: 0,
         log: vec![],
     };
@@ -660,7 +679,7 @@ pub fn run_scenario(root: &Path, sc: &Value) -> Vec<Value> {
     let actions = sc["actions"].as_array().cloned().unwrap_or_default();
     for a in &actions {
         run.exec(a, &tm, mode_a);
-        if run.died {
+        if run.died || run.overflow {
             break;
         }
     }
@@ -687,6 +706,9 @@ pub fn run_scenario(root: &Path, sc: &Value) -> Vec<Value> {
         evs.push(json!({"e": "harness_died", "s": sid, "why": "dump"}));
         return evs;
     };
+    // an overflowing stream is cut: the observer judges the prefix and demands nothing absent
+    let cut = if run.overflow { frames.len().min(run.max_frames + 40) } else { frames.len() };
+    let frames = &frames[..cut];
     if server_died {
         // the worker process itself went away while serving: a harness-level failure (a panic in
         // a processor thread does not take the process down)
@@ -751,7 +773,7 @@ pub fn run_scenario(root: &Path, sc: &Value) -> Vec<Value> {
         }));
     }
     evs.push(json!({"e": "quiescent", "s": sid, "timeout": timeout, "pending": pend, "waited_ms": waited as u64,
-                    "restarts": run.restarts, "nframes": frames.len(), "log": run.log,
+                    "restarts": run.restarts, "nframes": frames.len(), "log": run.log, "overflow": run.overflow,
                     "cycles": sc["gen_cycles"].as_u64().unwrap_or(1)}));
     evs
 }
